@@ -78,6 +78,10 @@ HAND_DOCS = [
     "a: a\nb: {a: {a: 1, b: [a, {}, []]}}\nx: [b, {x: x}]\n",
     # an anchor that lives below an aliased key, its alias elsewhere (expansion under -A discards the original)
     "p:\n  x: {&v k: 1}\n  y: {*v : [&a a]}\n  z: [*a, b]\n",
+    # merge keys / aliased keys in hashes that are ELEMENTS OF A LIST below a matchable parent (expansion passes through the
+    # list and must keep applying the alias options)
+    "base: &m {x: 1, a: a}\nd:\n  - {<<: *m, b: 1}\n  - {<<: *m, x: b}\n",
+    "k: {&j a: 1}\nd: [{*j : x, b: a}, [{*j : b}]]\n",
     # sequences in sequences below keys (expansion has to reach the innermost leaves)
     "a: [[a, [b]], {x: [1, {b: a}]}]\nb: {x: [[x]], 1: [[]]}\n",
 ]
